@@ -1,6 +1,7 @@
 SPECIFICATION Spec
 CONSTANTS
   Configs <- CoarseQuick
+  Fix = FALSE
   EmitGen = FALSE
   Seed = 0
 INVARIANTS NeverMulti
